@@ -28,11 +28,15 @@ def run(chk, tier):
         from . import c12
         c12.check_eq_ord(chk, prog, cfg)
         cr.check_debug_asserts(chk, rule="R5.7")
+        cr.check_stateless(chk, prog, cfg, rule="R5.8")
         n = ci.check_identities(chk, prog, cfg)
         chk.count("alias_impls[%s]" % cfg, n)
         # two instantiations of one generic type differ in their recorded parameters only if the builders keep what they are given in any call order
         from . import c17
         c17.transitions(chk, prog, cfg, "docs" in feats)
+        # one entry per type also after pruning: retain follows and renumbers every reference (a reference left behind dangles or names another type)
+        from . import c10
+        c10.check_config(chk, prog, cfg)
     # aliasing is decided by type identity, never by name: the derive refers every member to its declared type (a user type called `Box` is not a Box)
     from . import c09
     c09.corpus(chk, tier)
